@@ -329,6 +329,24 @@ def other_kinds(rep, rng, x, X, quick):
             bad.append("a user-supplied weight w does not divide basis data by sqrt(w)")
     except ModuleNotFoundError as e:
         rep.notes.append(f"basis monitors skipped: {e}")
+    # integer-dtype coefficients (counts, digitised expansions): every operation gives what it gives on the same numbers as floats
+    try:
+        ci = (np.round(coef * 4).astype(np.int64) + np.arange(coef.shape[0])[:, None] % 3)
+        def with_coef(c):
+            return BasisFunctionalData(basis=Basis(name=name, n_functions=nf, argvals=DenseArgvals({"input_dim_0": t})),
+                                       coefficients=c.copy())
+        for opn, op in (("center()", lambda b: b.center().coefficients), ("standardize()", lambda b: b.standardize().to_grid().values),
+                        ("normalize()", lambda b: b.normalize().coefficients), ("rescale()", lambda b: b.rescale()[0].coefficients)):
+            with warnings.catch_warnings():
+                warnings.simplefilter("ignore")
+                want = np.asarray(op(with_coef(ci.astype(float))), float)
+                got = np.asarray(op(with_coef(ci)), float)
+            if got.shape != want.shape or not np.allclose(got, want, rtol=1e-9, atol=1e-9 * max(1.0, float(np.max(np.abs(want)))),
+                                                          equal_nan=True):
+                bad.append(f"{opn} on integer-dtype coefficients differs from the result on the same numbers as floats "
+                           f"(max {float(np.max(np.abs(got - want))) if got.shape == want.shape else float('nan'):.3g})")
+    except ModuleNotFoundError as e:
+        rep.notes.append(f"basis integer-coefficient monitors skipped: {e}")
     rep.case(("basis", name, coef.tobytes()), kind=f"basis/{name}")
     if bad:
         rep.violation(f"basis-expansion data ({name}): " + "; ".join(bad), {"basis": name, "n_functions": nf, "coefficients": C.hexf(coef)})
